@@ -71,9 +71,14 @@ class KernelTranslator:
         self.elementwise = set()   # names that denote whole arrays used elementwise (np.where kernels)
         self.out_name = None
         self.consts = {}
+        self.pi_names = {"pi"}
         for st in module_ast.body:
             if isinstance(st, ast.Assign) and len(st.targets) == 1 and isinstance(st.targets[0], ast.Name):
                 self.consts[st.targets[0].id] = st.value
+            if isinstance(st, ast.ImportFrom) and st.module in ("math", "numpy"):
+                for al in st.names:           # `from math import pi as PI`
+                    if al.name == "pi" and al.asname:
+                        self.pi_names.add(al.asname)
 
     # ---- expressions -------------------------------------------------
     def offset(self, node, var):
@@ -106,7 +111,7 @@ class KernelTranslator:
                 raise Untranslatable("loop variable used as a value")
             if n.id in self.locals or n.id in self.args:
                 return f"(E.var {lean_str(n.id)})"
-            if n.id in ("pi",):
+            if n.id in self.pi_names:
                 return "E.pi"
             if n.id in ("nan",):
                 return "E.nan"
@@ -277,6 +282,8 @@ class KernelTranslator:
             return f"(S.seq (S.store {self.expr(s.value)}) S.cont)"
         if isinstance(s, ast.Raise):
             return f"(S.fail {lean_str(ast.unparse(s.exc) if s.exc else 'raise')})"
+        if isinstance(s, ast.Assert):
+            return f"(S.ite {self.cond(s.test)}\n S.skip\n (S.fail {lean_str('assert ' + ast.unparse(s.test))}))"
         if isinstance(s, ast.Pass):
             return "S.skip"
         if isinstance(s, ast.Expr) and isinstance(s.value, ast.Constant) and isinstance(s.value.value, str):
@@ -566,6 +573,7 @@ KERNELS = [
     ("dask_mean", "xrspatial/zonal.py", "_dask_mean", "scalar"),
     ("dask_std", "xrspatial/zonal.py", "_dask_std", "scalar"),
     ("dask_var", "xrspatial/zonal.py", "_dask_var", "scalar"),
+    ("viewshed_vertical_ang", "xrspatial/viewshed.py", "_get_vertical_ang", "scalar"),
     ("true_color_alpha_numpy", "xrspatial/multispectral.py", "_true_color_numpy", ("where", "a", ["r"])),
     ("true_color_alpha_dask", "xrspatial/multispectral.py", "_true_color_dask", ("where", "alpha", ["r"])),
     ("proximity_is_target", "xrspatial/proximity.py", "_process_proximity_line", ("target_test",)),
